@@ -377,7 +377,8 @@ pub fn record(args: &Args) {
                     opts.insert("t", rng.pick(&["1", "2", "3", "1000"]).to_string());
                     opts.insert("p", rng.pick(&["1", "2", "0"]).to_string());
                     opts.insert("c", rng.pick(&["0", "0.05", "0.6", "0.25", "0.5"]).to_string());
-                    let route = Route { flag: "default", src: if j % 2 == 0 { "file" } else { "stdin" }, ext: if fmt == "json" { ".json" } else { ".efg" }, to_file: j % 4 == 3 };
+                    // (source and destination by lot: a fixed pattern in j runs in step with the pattern of formats)
+                    let route = Route { flag: "default", src: if rng.chance(0.5) { "file" } else { "stdin" }, ext: if fmt == "json" { ".json" } else { ".efg" }, to_file: rng.chance(0.3) };
                     let (obs, argv) = execute(&exe, &dir, sink.id + 1, &r.text, &route, &opt_vec(&opts));
                     emit_out(&mut sink, &mode, name, t, &r, &route, &opts, &obs, &argv, None, None);
                     runs += 1;
